@@ -449,6 +449,15 @@ def compare(I, op, a, b) -> VBool:
             r = mkbool(not r.c) if r.c is not None else VBool(t=z3.Not(r.t))
         return r
     o = {ast.Lt: "<", ast.LtE: "<=", ast.Gt: ">", ast.GtE: ">="}[type(op)]
+    if isinstance(a, VUnion) or isinstance(b, VUnion):
+        aa = a.alts if isinstance(a, VUnion) else [(z3.BoolVal(True), a)]
+        bb = b.alts if isinstance(b, VUnion) else [(z3.BoolVal(True), b)]
+        if all(isinstance(v, (VInt, VFloat, VBool)) for _, v in aa + bb):
+            terms = []
+            for ca, va in aa:
+                for cb, vb in bb:
+                    terms.append(z3.And(ca, cb, compare(I, op, va, vb).term()))
+            return VBool(t=z3.Or(terms))
     a, b = I.resolve(a), I.resolve(b)
     if isinstance(a, VRef) or isinstance(b, VRef):
         return I.order_ref(o, a, b)
